@@ -523,6 +523,79 @@ func c16Trees(c *mc.Check) {
 	f.Done()
 }
 
+// ---- any number of warnings ----
+
+type c16NotesCase struct {
+	Rows  int // rows with a warning of their own each
+	Files int
+}
+
+func c16NotesRun(dir string, cs c16NotesCase) string {
+	var args []string
+	for fi := 0; fi < cs.Files; fi++ {
+		var b strings.Builder
+		b.WriteString("Unit x/op assume=exact\n")
+		for r := 0; r < cs.Rows; r++ {
+			// an exact unit whose values differ: "exact distribution expected, but values range from A to B",
+			// with A and B of this row only
+			fmt.Fprintf(&b, "BenchmarkR%03d 1 %d x/op\nBenchmarkR%03d 1 %d x/op\n", r, 100+r+1000*fi, r, 200+r+1000*fi)
+		}
+		p := filepath.Join(dir, fmt.Sprintf("n%d.txt", fi))
+		if err := os.WriteFile(p, []byte(b.String()), 0o644); err != nil {
+			return err.Error()
+		}
+		args = append(args, p)
+	}
+	return c16CompareArgs(append([]string{"-format", "csv"}, args...))
+}
+
+func c16Notes(c *mc.Check) {
+	replay := func(raw json.RawMessage) string {
+		var cs c16NotesCase
+		if err := json.Unmarshal(raw, &cs); err != nil {
+			return err.Error()
+		}
+		dir, _ := os.MkdirTemp("", "verif-c16n-")
+		defer os.RemoveAll(dir)
+		var msg string
+		if p := mc.Catch(func() { msg = c16NotesRun(dir, cs) }); p != "" {
+			return p
+		}
+		return msg
+	}
+	maxRows := mc.Pick(c, 34, 130)
+	f := c.Family("tables-with-many-footnotes", fmt.Sprintf("tables in which every row carries a warning of its own (a unit declared exact whose values differ: the message names the row's own range), for every number of rows from 1 to %d × 1–2 input files (the second file doubles the distinct messages), rendered as text and as CSV by the real benchstat: every footnote mark in the text resolves to a footnote, and each cell's resolved messages equal the CSV warnings of that cell; non-trivial = tables with ≥10 distinct footnotes (marks of several digits)", maxRows), replay)
+	if c.Replaying() {
+		return
+	}
+	dir, _ := os.MkdirTemp("", "verif-c16n-")
+	defer os.RemoveAll(dir)
+	for files := 1; files <= 2; files++ {
+		for rows := 1; rows <= maxRows; rows++ {
+			cs := c16NotesCase{rows, files}
+			var msg string
+			if p := mc.Catch(func() { msg = c16NotesRun(dir, cs) }); p != "" {
+				msg = p
+			}
+			nt := int64(0)
+			if rows*files >= 10 {
+				nt = 1
+			}
+			f.Count(1, nt)
+			f.Outcome(fmt.Sprintf("ok=%v", msg == ""), 1)
+			if msg != "" {
+				sig := "text-vs-csv"
+				if strings.HasPrefix(msg, "text layout:") {
+					sig = "text-layout"
+				}
+				c.Fail(f, sig, cs, msg)
+			}
+		}
+	}
+	f.Sample(c16NotesCase{12, 1})
+	f.Done()
+}
+
 func c16TextVsCSV(c *mc.Check) {
 	replay := func(raw json.RawMessage) string {
 		var cs c14Case
